@@ -362,6 +362,21 @@ class CallMixin:
                          z3.ForAll([k], z3.Implies(z3.And(0 <= k, k < r),
                                                    z3.Not(s.elem.eq(s.at(t, k), x.t))))))
       return V(S.INT, r)
+    if name == 'remove' and len(args) == 1:
+      # removes the first occurrence (ValueError if absent)
+      x = self.coerce(args[0], s.elem)
+      n = s.len(t)
+      self.oblige_or_raise(s.contains(t, x.t), 'ValueError', 'list.remove(x): x in list', node)
+      pos = z3.FreshConst(z3.IntSort(), 'rmpos')
+      k_ = z3.FreshConst(z3.IntSort(), 'k')
+      self.assume(z3.And(0 <= pos, pos < n, s.elem.eq(s.at(t, pos), x.t),
+                         z3.ForAll([k_], z3.Implies(z3.And(0 <= k_, k_ < pos), z3.Not(s.elem.eq(s.at(t, k_), x.t))))))
+      rest = z3.FreshConst(z3.ArraySort(z3.IntSort(), s.elem.z3()), 'removed')
+      self.assume(z3.ForAll([k_], z3.Implies(z3.And(0 <= k_, k_ < n - 1),
+                                             z3.Select(rest, k_) == z3.If(k_ < pos, s.at(t, k_), s.at(t, k_ + 1))),
+                            patterns=[z3.Select(rest, k_)]))
+      self.store_back(bm.lval, V(s, s.mk(rest, n - 1)))
+      return NONE
     if name == 'popleft' and not args:
       # collections.deque modelled as a list (A-LIB): popleft() == pop(0)
       n = s.len(t)
